@@ -1,179 +1,18 @@
-(* C17: the decoding direction of cspuz/problem_serializer.py (and yajilin.YajilinClue) as it is
-   after C17's fixes.  Definitions only, no proofs.
+(* C17: the side conditions under which decoding is total, and the allowed outcomes.
+   Definitions only, no proofs.
 
-   Codec/Comb.v (property C15's file) and Codec/Yajilin.v (C16's) are imported unchanged; only
-   the definitions the four fixes touch are restated here, with the suffix F:
-
-     hexint_deF     HexInt.deserialize checks _is_hex on the two / three digits after '-' / '+'
-                    (int(s, 16) also accepts a sign, blanks, underscores: "--5" decoded to -5)
-     rooms_de_rawF  Rooms._deserialize raises ValueError on a board without cells
-                    (height 0 or width 0 made the inner Grid(.., width - 1) assert)
-     yajilin_deF    YajilinClue.deserialize returns None for a negative number ("6-5")
-     deserialize_urlF   deserialize_problem_as_url raises ValueError (not AssertionError) on
-                    text that is not a puzzle URL when allow_failure is off
-
-   deF is Comb.v's [de] with the first two replaced; everything else ([seq_de], [grid_de],
-   [rooms_of_borders], [url_match], ...) is Comb.v's own definition.  The side conditions under
-   which decoding is total ([dec_ok], [productive], [single]) are defined at the end.          *)
+   The decoders themselves are Codec/Comb.v's [de] (property C15's model of
+   cspuz/problem_serializer.py), Codec/Yajilin.v's [yajilin_de] and Codec/Puzzles.v's
+   [deserialize_url_cu] / [run_de] (property C16's), all of which follow the code as it is
+   after C17's fixes (HexInt reads hex digits only, Rooms raises ValueError on a board without
+   cells, non-URL text raises ValueError, YajilinClue rejects negative numbers).             *)
 From Coq Require Import ZArith List Ascii Bool NArith.
-From Cspuz Require Import Lib.PyErr Codec.Comb Codec.Legacy Codec.Url Codec.Yajilin Codec.Puzzles.
+From Cspuz Require Import Lib.PyErr Codec.Comb.
 Import ListNotations.
 Local Open Scope Z_scope.
 
-(* ------------------------------------------------------------------ HexInt.deserialize *)
-Definition hexint_deF (s : str) : dres :=
-  match s with
-  | [] => Ok None
-  | c :: t =>
-      if ascii_eqb c "-"%char then
-        if Nat.ltb (length s) 3 then Ok None
-        else if negb (is_hex (firstn 2 t)) then Ok None
-        else match from_base16 (firstn 2 t) with Err e => Err e | Ok v => Ok (Some (3%nat, [VInt v])) end
-      else if ascii_eqb c "+"%char then
-        if Nat.ltb (length s) 4 then Ok None
-        else if negb (is_hex (firstn 3 t)) then Ok None
-        else match from_base16 (firstn 3 t) with Err e => Err e | Ok v => Ok (Some (4%nat, [VInt v])) end
-      else if is_hex [c] then
-        match from_base16 [c] with Err e => Err e | Ok v => Ok (Some (1%nat, [VInt v])) end
-      else Ok None
-  end.
-
-(* ------------------------------------------------------------------ Rooms._deserialize *)
-Definition rooms_de_rawF (e : env) (allow : bool) (s : str) : dres :=
-  if (height e <=? 0) || (width e <=? 0) then Err ValueError
-  else rooms_de_raw e allow s.
-
-Definition rooms_deF (e : env) (skip allow : bool) (s : str) : dres :=
-  skip_value_error skip (rooms_de_rawF e allow s).
-
-(* ValuedRooms.deserialize over the fixed Rooms *)
-Definition vrooms_deF (devc : str -> dres) (e : env) (skip allow : bool) (s : str) : dres :=
-  match rooms_deF e skip allow s with
-  | Err e' => Err e'
-  | Ok None => Ok None
-  | Ok (Some (ofs, rooms)) =>
-      match nth_res rooms 0 with
-      | Err e' => Err e'
-      | Ok rooms0 =>
-          match py_items rooms0 with
-          | Err e' => Err e'
-          | Ok rl =>
-              match seq_de devc (Z.of_nat (length rl)) (skipn ofs s) with
-              | Err e' => Err e'
-              | Ok None => Ok None
-              | Ok (Some (ofs2, values)) =>
-                  match nth_res values 0 with
-                  | Err e' => Err e'
-                  | Ok values0 => Ok (Some ((ofs + ofs2)%nat, [VTup [rooms0; values0]]))
-                  end
-              end
-          end
-      end
-  end.
-
-(* ------------------------------------------------------------------ Combinator.deserialize (s = data[idx:]) *)
-Fixpoint deF (e : env) (c : comb) (s : str) {struct c} : dres :=
-  match c with
-  | FixStr t => fixstr_de t s
-  | Dict before after => dict_de_at before after s
-  | Spaces sp sm => spaces_de sp sm s
-  | DecInt => decint_de s
-  | HexInt => hexint_deF s
-  | IntSpaces sp mi ms => intspaces_de sp mi ms s
-  | MultiDigit b d => md_de b d s
-  | OneOf choices =>
-      (fix oneof (l : list comb) : dres :=
-         match l with
-         | [] => Ok None
-         | c1 :: l' => match deF e c1 s with
-                       | Err e' => Err e'
-                       | Ok (Some r) => Ok (Some r)
-                       | Ok None => oneof l'
-                       end
-         end) choices
-  | Tupl elements =>
-      (fix tupl (l : list comb) (s' : str) (ofs : nat) (parts : list pv) : dres :=
-         match l with
-         | [] => Ok (Some (ofs, [VTup parts]))
-         | c1 :: l' =>
-             match deF e c1 s' with
-             | Err e' => Err e'
-             | Ok None => Ok None
-             | Ok (Some (n_read, val)) => tupl l' (skipn n_read s') (ofs + n_read)%nat (parts ++ [VList val])
-             end
-         end) elements s 0%nat []
-  | Seq c1 n => seq_de (deF e c1) n s
-  | Grid c1 hw => grid_de (deF e c1) e hw s
-  | Rooms skip allow => rooms_deF e skip allow s
-  | ValuedRooms vc skip allow => vrooms_deF (deF e vc) e skip allow s
-  | Custom k => cu_de (cust e) k s
-  end.
-
-Definition deF_at (e : env) (c : comb) (data : str) (idx : nat) : dres := deF e c (skipn idx data).
-
-(* ------------------------------------------------------------------ yajilin.YajilinClue.deserialize *)
-Definition yajilin_finishF (dir : ascii) (num : str) (n_read : nat) : res (option (nat * list pv)) :=
-  if ascii_eqb dir "0"%char then Ok (Some (n_read, [VStr s_qq]))
-  else if negb (in_1234 dir) then Ok None
-  else if str_eqb num ["."%char] then Ok (Some (n_read, [VStr s_qq]))
-  else match py_int num 16 with
-       | Err e => Err e
-       | Ok n => if n <? 0 then Ok None
-                 else Ok (Some (n_read, [VStr (dir_char (ord dir - 48) :: py_str_int n)]))
-       end.
-
-Definition yajilin_deF (s : str) : res (option (nat * list pv)) :=
-  match s with
-  | c :: ((c1 :: t1) as t) =>
-      if ascii_eqb c "-"%char then
-        if Nat.ltb (length s) 5 then Ok None
-        else yajilin_finishF c1 (firstn 3 t1) 5
-      else if in_56789 c then
-        if Nat.ltb (length s) 3 then Ok None
-        else yajilin_finishF (chr (ord c - 5)) (firstn 2 t) 3
-      else yajilin_finishF c [c1] 2
-  | _ => Ok None
-  end.
-
-Definition yajilin_customF : custom :=
-  {| cu_ser := fun _ data idx => yajilin_ser data idx; cu_de := fun _ s => yajilin_deF s |}.
-
-(* ------------------------------------------------------------------ problem / URL level *)
-Definition deserialize_problemF (cu : custom) (c : comb) (s : str) (h w : Z) : res (option pv) :=
-  match deF (cu_env cu h w) c s with
-  | Err e => Err e
-  | Ok None => Ok None
-  | Ok (Some (_, [p])) => Ok (Some p)
-  | Ok (Some _) => Err AssertionError
-  end.
-
-Definition deserialize_urlF (cu : custom) (c : comb) (url : str) (al : allowed)
-           (allow_failure return_size : bool) : res (option pv) :=
-  match url_match url with
-  | None => if allow_failure then Ok None else Err ValueError
-  | Some (puzzle, wd, hd, body) =>
-      match py_int wd 10 with
-      | Err e => Err e
-      | Ok w =>
-      match py_int hd 10 with
-      | Err e => Err e
-      | Ok h =>
-          if negb (allowed_ok al puzzle) then Err ValueError else
-          match deserialize_problemF cu c body h w with
-          | Err e => Err e
-          | Ok None => Ok None
-          | Ok (Some p) => Ok (Some (if return_size then VTup [VInt h; VInt w; p] else p))
-          end
-      end end
-  end.
-
-(* deserialize_<p>(url) of a puzzle module, from its translated wrapper record *)
-Definition run_deF (cu : custom) (dw : de_wrapper) (url : str) : res (option pv) :=
-  deserialize_urlF cu (dw_comb dw) url (dw_allowed dw) (dw_allow_failure dw) (dw_return_size dw).
-
-(* ------------------------------------------------------------------ side conditions of totality *)
 (* a successful decode reads at least one character or returns at least one item
-   (otherwise the while loop of Seq.deserialize never ends) *)
+   (otherwise the while loop of Seq.deserialize never ends: Seq(FixStr(""), 3)) *)
 Fixpoint productive (c : comb) : bool :=
   match c with
   | FixStr s => match s with [] => false | _ => true end
@@ -181,7 +20,9 @@ Fixpoint productive (c : comb) : bool :=
   | _ => true
   end.
 
-(* what the constructors / the caller must guarantee for decoding to be total *)
+(* what the constructors / the caller must guarantee for decoding to be total:
+   Dict with as many keys as texts (the constructor checks it), Seq / Grid / ValuedRooms over a
+   productive base, explicit Grid sizes with a non-negative product *)
 Fixpoint dec_ok (c : comb) : bool :=
   match c with
   | Dict b a => Nat.eqb (length b) (length a)
@@ -201,13 +42,26 @@ Fixpoint single (c : comb) : bool :=
   | _ => false
   end.
 
-(* the allowed outcomes: a result, or the one exception class a caller is told to expect *)
+(* the allowed outcomes: a result (None or a value), or the one exception class callers are told to expect *)
 Definition safe {A} (r : res A) : Prop :=
   match r with Ok _ => True | Err e => e = ValueError end.
 
-(* a Combinator subclass plugged in as [Custom k] behaves like the library ones *)
+(* a Combinator subclass plugged in as [Custom k] must behave like the library ones *)
 Definition custom_total (cu : custom) : Prop :=
   forall k s, safe (cu_de cu k s) /\
     forall n l, cu_de cu k s = Ok (Some (n, l)) -> (n <= length s)%nat /\ length l = 1%nat.
 
-Definition env_nonneg (e : env) : Prop := 0 <= height e /\ 0 <= width e.
+(* no Combinator subclass occurs in the term *)
+Fixpoint custom_free (c : comb) : bool :=
+  match c with
+  | Custom _ => false
+  | OneOf l | Tupl l => forallb custom_free l
+  | Seq c1 _ | Grid c1 _ | ValuedRooms c1 _ _ => custom_free c1
+  | _ => true
+  end.
+
+(* the subclasses that do occur behave *)
+Definition customs_ok (cu : custom) (c : comb) : Prop := custom_total cu \/ custom_free c = true.
+
+(* Grid without explicit size multiplies the two board sizes *)
+Definition env_nonneg (e : env) : Prop := 0 <= height e * width e.
